@@ -199,6 +199,8 @@ pub enum Op {
     TxnBegin,
     TxnFail,
     TxnCommit,
+    /// close and reopen the database (only file-backed variants actually do; C06)
+    Reopen,
     /// anything that is not a canonical op line (raw text kept for the round trip)
     Bad(String),
 }
@@ -320,6 +322,7 @@ impl Op {
             Op::TxnBegin => "txn_begin".to_string(),
             Op::TxnFail => "txn_fail".to_string(),
             Op::TxnCommit => "txn_commit".to_string(),
+            Op::Reopen => "reopen".to_string(),
             Op::Bad(raw) => raw.clone(),
         }
     }
@@ -362,6 +365,7 @@ impl Op {
             Op::TxnBegin => "txn_begin",
             Op::TxnFail => "txn_fail",
             Op::TxnCommit => "txn_commit",
+            Op::Reopen => "reopen",
             Op::Bad(_) => "bad-op",
         }
     }
@@ -571,6 +575,7 @@ fn parse_inner(line: &str) -> Option<Op> {
         "txn_begin" if n == 1 => Op::TxnBegin,
         "txn_fail" if n == 1 => Op::TxnFail,
         "txn_commit" if n == 1 => Op::TxnCommit,
+        "reopen" if n == 1 => Op::Reopen,
         _ => return None,
     };
     Some(op)
